@@ -175,7 +175,7 @@ def _unify(p: ast.AST, n: ast.AST, metas, b: Dict[str, str]) -> None:
         b[p.id] = t
         return
     if isinstance(p, ast.Expr) and not isinstance(n, ast.Expr):
-        p = p.value
+        return _unify(p.value, n, metas, b)
     if type(p) is not type(n):
         raise _NoMatch()
     for fname, pv in ast.iter_fields(p):
@@ -183,7 +183,12 @@ def _unify(p: ast.AST, n: ast.AST, metas, b: Dict[str, str]) -> None:
             continue
         nv = getattr(n, fname, None)
         if isinstance(pv, list):
-            if not isinstance(nv, list) or len(pv) != len(nv):
+            if not isinstance(nv, list):
+                raise _NoMatch()
+            if any(_is_gap(a) for a in pv):
+                _unify_seq(pv, nv, metas, b)
+                continue
+            if len(pv) != len(nv):
                 raise _NoMatch()
             for a, c in zip(pv, nv):
                 if isinstance(a, ast.AST):
@@ -204,10 +209,41 @@ def _unify(p: ast.AST, n: ast.AST, metas, b: Dict[str, str]) -> None:
                 raise _NoMatch()
 
 
+def _is_gap(a) -> bool:
+    return isinstance(a, ast.Expr) and isinstance(a.value, ast.Constant) and a.value.value is Ellipsis
+
+
+def _unify_seq(pv: list, nv: list, metas, b: Dict[str, str]) -> None:
+    """Statement-list unification where a bare `...` statement in the pattern matches any run (possibly empty) of statements."""
+    def rec(i: int, j: int, bb: Dict[str, str]) -> Optional[Dict[str, str]]:
+        if i == len(pv):
+            return bb if j == len(nv) else None
+        if _is_gap(pv[i]):
+            for k in range(j, len(nv) + 1):
+                r = rec(i + 1, k, dict(bb))
+                if r is not None:
+                    return r
+            return None
+        if j >= len(nv):
+            return None
+        b2 = dict(bb)
+        try:
+            _unify(pv[i], nv[j], metas, b2)
+        except _NoMatch:
+            return None
+        return rec(i + 1, j + 1, b2)
+    r = rec(0, 0, dict(b))
+    if r is None:
+        raise _NoMatch()
+    b.clear()
+    b.update(r)
+
+
 def pmatch(root: ast.AST, pattern: str, metas: Iterable[str] = (), binding: Optional[Dict[str, str]] = None
            ) -> List[Tuple[ast.AST, Dict[str, str]]]:
     """All sub-nodes of `root` matching the source pattern; identifiers listed in `metas` are metavariables that bind
-    (consistently) to arbitrary expressions, `ANY` matches anything without binding.  Robust to renaming of locals,
+    (consistently) to arbitrary expressions, `ANY` matches anything without binding, a bare `...` statement matches any run
+    of statements.  Robust to renaming of locals,
     formatting and comments; `binding` pre-binds metavariables."""
     metas = set(metas) | {"ANY"}
     pt = ast.parse(pattern.strip()).body[0]
